@@ -19,7 +19,7 @@ LEVEL_NOTE = ("Trusted: Lean kernel; axioms propext/Classical.choice/Quot.sound;
               "are correspondence-only facets.")
 TECHNIQUE = "Lean 4 proof of model = list-of-rows spec; model tied to code by differential correspondence"
 DESIGN_REF = "7"
-LEAN_MODULES = ["NpsVerif.Props.C01"]
+LEAN_MODULES = ["NpsVerif.Props.C01", "NpsVerif.Props.C01B"]
 KERNELS = ()
 RULE = ("cases = (constructor kind: list-of-rows | flat+lengths (matching / mismatching) | geometry object) x "
         "row-length vector (exhaustive small scope + random, empty rows anywhere) x dtype; "
@@ -418,6 +418,9 @@ def decode_lean(p, resp):
         o["ravel"] = canon(vals[j["ravel"]] if len(j["ravel"]) else np.array([], dtype=dt))
         if p["kind"] == "rows":
             o["len"] = canon(j["len"]); o["size"] = canon(j["size"]); o["lengths"] = canon(j["lengths"])
+            if "equals" in j:
+                # (the model compares cell identities; with NaN cells numpy's == is not an identity test: not judged, as for the implementation)
+                o["equals"] = canon("nan-cells" if dt.kind == "f" and bool(np.isnan(vals).any()) else [bool(x) for x in j["equals"]])
             tn = j["to_numpy"]
             if isinstance(tn, dict):
                 o["to_numpy"] = refuse()
